@@ -7,6 +7,7 @@ import MosnVerif.Gen.ProxyReset
 import MosnVerif.Gen.ProxyReply
 import MosnVerif.Gen.ProxyTerminate
 import MosnVerif.Gen.ProxyTimers
+import MosnVerif.Gen.ProxyBackoff
 /-!
 # The shared downstream machine (DESIGN.md §5) — model of one downstream request of MOSN's proxy core
 
@@ -162,6 +163,7 @@ structure S where
   tTok : Tok := .none               -- … downstreamRespTrailers
   -- the global timer
   gtGen : Nat := 0                  -- global timers armed so far (utils.NewTimer in onUpstreamRequestSent)
+  gtObj : Bool := false             -- `s.responseTimer != nil`: set when the timer is created, kept when it fires, forgotten by cleanUp
   -- ledger
   retries : Int := 0                -- Retries().Cur()
   requests : Int := 0               -- Requests().Cur()
@@ -188,6 +190,7 @@ inductive Label where
   | terminateStale (g : Nat) (code : Nat)                          -- TerminateStream on a kept handler created with downStream.ID = g
   | terminateRaced (code : Nat) (k : Nat) (hasData hasTrailers : Bool)  -- TerminateStream with an in-flight response of client stream k landing inside it
   | lateResp (k : Nat) (hasData hasTrailers : Bool)   -- late response during the back-off: a frame of client stream k, in flight when that attempt was given up for a retry, lands while doRetry sleeps (phase Retry)
+  | gtInSetup (afterCas : Bool)   -- [proxy10] the global timer callback lands INSIDE setupRetry (the worker at its yield site after the mark / after upstreamResponseReceived was swung back): its reset is dropped by the marked request
   deriving DecidableEq, Repr, Inhabited, Hashable
 
 def emit (s : S) (e : Ev) : S := { s with trace := s.trace ++ [e] }
@@ -283,7 +286,7 @@ def rsReset (c : Cfg) (s : S) : S :=
 
 /-- `downStream.cleanUp()` -/
 def cleanUp (c : Cfg) (s : S) : S :=
-  { rsReset c s with perTry := false, global := false }
+  { rsReset c s with perTry := false, global := false, gtObj := false }
 
 /-- the stream holds response data / trailers (`downstreamRespDataBuf != nil` / `downstreamRespTrailers != nil`) -/
 def heldData (s : S) : Bool := match s.resp with | some r => r.hasData | none => false
@@ -450,7 +453,7 @@ are armed when an upstream request exists and the request is two-way -/
 def onUpstreamRequestSent (c : Cfg) (s : S) : S :=
   let arm := s.up.isSome && !c.oneway
   { s with reqSent := true, perTry := s.perTry || (arm && c.tryTimeout), global := s.global || arm,
-           gtGen := if arm then s.gtGen + 1 else s.gtGen }
+           gtGen := if arm then s.gtGen + 1 else s.gtGen, gtObj := s.gtObj || arm }
 
 /-- outcome of the next `ConnectionPool.NewStream`: a scripted failure, a natural overflow, or admission -/
 def poolOutcome (c : Cfg) (s : S) : Option PoolFail :=
@@ -525,18 +528,46 @@ def receiveTrailers (c : Cfg) (s : S) : S :=
   let s := upAppendTrailers s
   if s.procDone then cleanStream c s else s
 
-/-- `downStream.doRetry()` -/
-def doRetry (c : Cfg) (s : S) : S :=
-  if s.hostsGone then
-    let s := { s with setupRetry := false }
-    cleanUp c (sendHijack s NoHealthUpstreamCode false)
-  else
-    let s := { s with up := some none, setupRetry := false }
-    let s := upAppendHeaders c s (!c.hasData && !c.hasTrailers)
-    let s := if c.hasData then upAppendData s (!c.hasTrailers) else s
-    let s := if c.hasTrailers then upAppendTrailers s else s
-    let s := if retryArmsGlobalWhenUnsent && !s.reqSent then onUpstreamRequestSent c s else setupPerReqTimeout c s
-    { s with reqSent := true, recvDone := true }
+/-- `s.responseTimer != nil` as `doRetry` reads it.  The field `gtObj` is the pointer (set when the timer is created, kept when it
+fires, forgotten by `cleanUp`); an armed timer has an object and an object exists only after the request was sent — on every
+reachable state `global → gtObj → reqSent` (`Lemmas/Downstream/TimerObj10.lean`: `timer_object_run`), so this IS `s.gtObj`
+(`hasTimerObj_eq`, Props/C03 `timer_object_is_pointer`); written with the two implied facts so that the invariant proof does
+not depend on that lemma. -/
+def hasTimerObj (s : S) : Bool := (s.gtObj || s.global) && s.reqSent
+
+/-- the operations of `downStream.doRetry` on the machine state ([proxy10] `doRetry` is the REGENERATED step program
+`Gen.ProxyBackoff.doRetry`: what it re-checks after its back-off sleep — a pending local reply, the recorded expiry of the
+global timeout —, the no-host branch, the fresh upstream request, the three send calls each guarded by `processDone()`, the
+timers it arms: both when no global timer object exists yet, else the per-try timer only) -/
+def drOps (c : Cfg) : Gen.ProxyBackoff.Ops S where
+  directResponse := fun s => s.direct
+  globalExpired := fun s => s.globalExpired
+  hasUpstreamRequest := fun s => s.up.isSome
+  downstreamReset := fun s => s.downReset
+  upstreamReset := fun s => s.upReset
+  processDone := processDone
+  noHost := fun s => s.hostsGone
+  hasData := fun _ => c.hasData
+  hasTrailers := fun _ => c.hasTrailers
+  hasGlobalTimer := hasTimerObj
+  requestSent := fun s => s.reqSent
+  noReuse := id
+  raiseGlobalTimeout := fun s => upOnResetStream s .UpstreamGlobalTimeout
+  clearSetupRetry := fun s => { s with setupRetry := false }
+  hijack := fun s code => sendHijack s code false
+  cleanUp := cleanUp c
+  newUpstreamRequest := fun s => { s with up := some none, setupRetry := false }
+  appendHeaders := upAppendHeaders c
+  appendData := upAppendData
+  appendTrailers := upAppendTrailers
+  onUpstreamRequestSent := onUpstreamRequestSent c
+  setupPerReqTimeout := setupPerReqTimeout c
+  setRequestSent := fun s => { s with reqSent := true }
+  setRecvDone := fun s => { s with recvDone := true }
+
+/-- `downStream.doRetry()` after its back-off sleep (the sleep itself is the state `backoff`: phase `Retry`, worker not yet
+woken; the label `work` in that state is the wake-up) -/
+def doRetry (c : Cfg) (s : S) : S := Gen.ProxyBackoff.doRetry (drOps c) s
 
 /-! ### processError (regenerated control flow instantiated on `S`) -/
 
@@ -689,15 +720,14 @@ def upfRunning (s : S) : Bool := s.running && s.phase == .UpFilter
 
 /-- client stream k is reset by its connection / peer: listeners' OnResetStream, then destroy.  A one-way client
 stream (no receiver) is not registered with its connection (xprotocol `streamConn.NewStream`), nothing resets it.
-The reset of a stream whose streamed response was accepted is delivered while the worker waits for the body
-(`bodyWait`) or while it runs the sender filters of the response ([proxy7] `upfRunning`: the label `reset during UpFilter`);
-one racing with the running worker in the other phases between the acceptance of the head and its forwarding (the wake-up
-in WaitNotify not yet consumed, UpRecvHeader) is not modelled (the label is a no-op then). -/
+[proxy10] The reset of a stream whose streamed response was accepted is a label in EVERY state: while the worker waits for the
+body (`bodyWait`), while it runs the sender filters of the response ([proxy7] `upfRunning`), and between the acceptance of the
+head and its forwarding (the wake-up in WaitNotify not yet consumed, before UpRecvHeader) — the next `processError` finds the
+raised reset together with the accepted head. -/
 def upResetL (c : Cfg) (s : S) (k : Nat) (reason : Reason) : S :=
   match s.streams[k]? with
   | some st =>
     if !st.real || !st.live || !st.counted then s else
-    if s.urr && !(bodyWait s || upfRunning s) then s else
     let s := if st.listening then upOnResetStream s reason else s
     destroyStream c s k
   | none => s
@@ -785,13 +815,36 @@ current upstream request and neither marked `setupRetry` nor done.  (`processErr
 a retry — `Gen.ProxyError`, op `detachRetried` —, so on the repaired code the frame finds no current request.) -/
 def lateBackoff (s : S) (k : Nat) (d t : Bool) : S := if backoff s then lateRecv s k d t else s
 
+/-- [proxy10] the worker goroutine is not running: parked in `waitNotify` with nothing signalled, or asleep in `doRetry`'s
+back-off.  An asynchronous `TerminateStream` is delivered in these states (a call racing with a RUNNING worker is not a label
+of the machine; the call landing inside `setupRetry` is driven on the implementation at the worker's yield sites and behaves
+as the call in the back-off — `processError` abandons the retry that was being set up, fix 4e7d4a7f0;
+`Lemmas/Downstream/TermInSetup10.lean`: the regenerated `setupRetry` with the regenerated `TerminateStream` at either yield site) -/
+def asleep (s : S) : Bool := parked s || backoff s
+
 /-- `TerminateStream(code)` on a handler created with `downStream.ID = hid`, with `between` interleaved inside its reset
 of the upstream request -/
 def terminateG (c : Cfg) (s : S) (hid code : Nat) (between : S → S) : S :=
-  if !parked s then s else (Gen.ProxyTerminate.terminateStream (termOps c hid code) between s).1
+  if !asleep s then s else (Gen.ProxyTerminate.terminateStream (termOps c hid code) between s).1
 
 /-- the label `terminate`: a handler of this request, nothing interleaves -/
 def terminateL (c : Cfg) (s : S) (code : Nat) : S := terminateG c s c.gen code id
+
+/-- [proxy10] the label `global timer callback inside setupRetry`.  The worker has just accepted a retry: `setupRetry` tested
+`globalTimeoutExpired` (not set), marked the given-up upstream request, and — `afterCas` — swung `upstreamResponseReceived`
+back; `processError` has not yet detached the marked request.  The callback of the global timer runs THERE (regenerated order
+`Gen.ProxyBackoff.globalCallback`: record the expiry, compare-and-swap the response slot, reset the upstream request,
+`OnResetStream`): the expiry is recorded; its compare-and-swap wins exactly when the slot is free at that moment — before the
+swing only after an upstream reset (and `setupRetry`'s swing then frees the slot again), after the swing always (the slot stays
+taken); the reset it raises is DROPPED by `upstreamRequest.OnResetStream` because the request is marked.  Nothing the rest of
+the worker's phase does (clearing `upstreamReset`, `processError`'s tests, the detach) reads or writes one of the three fields,
+so the label is its net effect on the back-off state the worker enters: timer fired, expiry recorded, slot taken iff
+`afterCas` (`Lemmas/Downstream/Window10.lean`: `gtInSetup_after_mark` / `gtInSetup_after_swing` derive this effect from the
+regenerated step programs — `Gen.ProxyBackoff.setupRetry` with the regenerated callback at its two yield sites, then the rest of
+the worker's phase — up to the listener registration of the client stream that is gone).  Enabled while the global timer is armed. -/
+def gtInSetup (s : S) (afterCas : Bool) : S :=
+  if !(backoff s && s.global) then s else
+  { s with global := false, globalExpired := s.globalExpired || globalCallbackRecordsExpiry, urr := s.urr || afterCas }
 
 def step (c : Cfg) (s : S) : Label → S
   | .work => work c s
@@ -809,6 +862,7 @@ def step (c : Cfg) (s : S) : Label → S
   | .terminateStale g code => terminateG c s g code id
   | .terminateRaced code k d t => terminateG c s c.gen code (fun s => lateRecv s k d t)
   | .lateResp k d t => lateBackoff s k d t
+  | .gtInSetup b => gtInSetup s b
 
 /-- initial state for ambient load (slots held by other requests of the cluster) -/
 def init (ambRetries ambRequests : Nat) : S := { retries := ambRetries, requests := ambRequests, upActive := 0 }
